@@ -29,6 +29,7 @@ SHARDS = {"quick": 8, "thorough": 16}
 MIN_REACH = {
     "earlier_crops_whose_cleanup_hit_an_error": {"quick": 5, "thorough": 100},
     "pipelines_reaped": {"quick": 120, "thorough": 2000},
+    "crops_also_reaped_as_a_table": {"quick": 8, "thorough": 120},
     "fresh_process_steps": {"quick": 15, "thorough": 300},
     "batches_grown": {"quick": 600, "thorough": 10000},
     "positions_compared": {"quick": 700, "thorough": 25000},
@@ -90,7 +91,9 @@ def cases(ctx):
     n = ctx.pick(150, 2600)
     nfresh = ctx.pick(10, 160)
     for i in range(n):
-        yield _gen(rng, fresh=(i % (n // nfresh) == 0))
+        c = _gen(rng, fresh=(i % (n // nfresh) == 0))
+        c["table_first"] = i % 2 == 1
+        yield c
     # loky workers inside grow / across batches (slow to start, sampled)
     for i in range(ctx.pick(8, 60)):
         c = _gen(rng, fresh=False)
@@ -294,9 +297,34 @@ def run_case(ctx, case):
                 if case["reload_before_reap"]:
                     crop = xyzpy.Crop(name=name, parent_dir=tmp) if not nosave else \
                         xyzpy.Crop(fn=fn, name=name, parent_dir=tmp, save_fn=False)
+                table = None
+                if kind in ("int", "float", "str", "bool") and case.get("table_first"):
+                    # the same crop first collected as a table, one row per setting (nothing is deleted by that), then as usual
+                    table = crop.reap_combos_to_ds(var_names=["y"], to_df=True, clean_up=False)
                 result = crop.reap()
         except Exception as e:
             return fail("reap raised %r" % (e,), step="reap", **exc_sig(e))
+        if table is not None:
+            swept = (w["names"] or []) + [a for a, _ in w["combos"]]
+            rows = table.to_dict("records")
+            req_ = cropkit.requested_settings(w)
+            tb = None
+            if len(rows) != len(req_):
+                tb = "%d rows for %d settings" % (len(rows), len(req_))
+            else:
+                seen_ = set()
+                for row in rows:
+                    p_ = {a: row[a] for a in swept}
+                    seen_.add(probe.canon(p_))
+                    d_ = refmodel.deep_eq(row["y"], probe.make(kind, {**p_, **constants}))
+                    if d_:
+                        tb = "row %s: %s" % (p_, d_)
+                        break
+                if tb is None and seen_ != {probe.canon({a: q[a] for a in swept}) for q in req_}:
+                    tb = "rows do not cover the settings once each"
+            if tb:
+                return fail("the crop reaped as a table differs from a direct run: " + tb, step="reap", oracle="table-rows")
+            ctx.count("crops_also_reaped_as_a_table")
     ctx.count("pipelines_reaped")
 
     # ------------------------------------------------------------------ oracle
